@@ -27,8 +27,8 @@ import vlib
 META = {
     "category": "proof",
     "technique": "Coq model + theorems; differential runs against the extracted model; strace-recorded system calls replayed into crash images",
-    "text": "Coq theorems (Mani/Props_C13.v, closed under the global context) over an executable model of mani/src/lib.rs (Edit, writer, BufRead::lines, ManifestIterator::next, read_mani, open/_apply/rollover/verify) on a small file-system model with hard links and durable prefixes: a transition system of open/apply/rollover/close with a crash at ANY prefix of the mutating system calls of any operation (process death or power loss with arbitrary torn tails), any number of times; proved for all histories: reopening yields the acknowledged state or that plus the one whole edit in flight, or fails with corruption (never a panic, an I/O error, a lost acknowledged edit or a partial edit); crash-free reopen = fold of all edits; process-death crashes always reopen; the fragments chain and Manifest::verify reports nothing on any open manifest, also after crashes; parse(serialise) and iterator round trips; every truncation of a fragment reads as a prefix (>= the complete edits) or fails — no assumption on the checksum; the Edit API accepts exactly what the reader takes back.  Tied to the code on every run by differential runs (real Manifest vs extracted model vs independent Python oracle) incl. strace-recorded call sequences, crash images materialised from the recorded calls (re-opened twice), and real SIGKILL injections.",
-    "note": "Trusted: Coq kernel; extraction (ExtrOcamlBasic) + ocaml/mani driver (supplies crc32c); harness c13; strace; the OS semantics of Mani/Fs.v (completed calls atomic and ordered, link/rename/unlink/create durable on return, data durable up to the last fdatasync); single writer = theorem over the lock-file model Mani/Lock.v (fcntl record locks: one owning process, released when the process closes any descriptor of the file), exercised on two real processes; I/O faults, foreign file names in the directory and u64 overflow of ratio*size are outside the model.",
+    "text": "Coq theorems (Mani/Props_C13.v, closed under the global context) over an executable model of mani/src/lib.rs (Edit, writer, BufRead::lines, ManifestIterator::next, read_mani, open/_apply/rollover/verify) on a small file-system model with hard links and durable prefixes: a transition system of open/apply/rollover/close with a crash at ANY prefix of the mutating system calls of any operation (process death or power loss with arbitrary torn tails), any number of times; proved for all histories: reopening yields the acknowledged state or that plus the one whole edit in flight, or fails with corruption (never a panic, an I/O error, a lost acknowledged edit or a partial edit); crash-free reopen = fold of all edits; process-death crashes always reopen; the fragments chain and Manifest::verify reports nothing on any open manifest, also after crashes; parse(serialise) and iterator round trips; every truncation of a fragment reads as a prefix (>= the complete edits) or fails — no assumption on the checksum; the Edit API accepts exactly what the reader takes back (so the class 'strings containing every non-newline byte' of the property's quantifier is, since fix 23237de, REJECTED AT THE API — empty, non-ASCII and CR-terminated strings and the keys + - get `string-disallowed` — rather than stored: the theorems are over wf_str, and every run checks the rejection on the real code); a cut of MANIFEST in a directory with a history reopens to a prefix of the applied edits; the lock file is exclusive across processes; all u64 rollover ratios (saturating product).  Tied to the code on every run by differential runs (real Manifest vs extracted model vs independent Python oracle) incl. strace-recorded call sequences, crash images materialised from the recorded calls (re-opened twice), and real SIGKILL injections.",
+    "note": "Trusted: Coq kernel; extraction (ExtrOcamlBasic) + ocaml/mani driver (supplies crc32c); harness c13; strace; the OS semantics of Mani/Fs.v (completed calls atomic and ordered, link/rename/unlink/create durable on return, data durable up to the last fdatasync); single writer = theorem over the lock-file model Mani/Lock.v (fcntl record locks: one owning process, released when the process closes any descriptor of the file), exercised on two real processes; I/O faults and foreign file names in the directory are outside the model; unreadable strings (empty, non-ASCII, CR-terminated, keys + -) are rejected at the Edit API, not stored.",
 }
 
 PROPS = "theories/Mani/Props_C13.v"
@@ -143,7 +143,7 @@ ASCII_POOL = [b"a", b"b", b"thing one", b"thing two", b"x" * 40, b"y" * 300, b"+
 BAD_POOL = ["", "a\r", "\r", "café", "\u0080", "߿", "￿", "\U0001f600", "x\ny", "\n", "tailé\r", "é"]
 KEYS_GOOD = [ord(c) for c in "IODCARTSLM129az "] + [0, 13, 9, 127, 42, 44, 46]
 KEYS_BAD = [43, 45, 10, 128, 233, 0x7FF, 0xFFFF, 0x1F600]
-RATIOS = [0, 1, 1, 2, 2, 2, 3, 5, 10, 1000, 2**32]
+RATIOS = [0, 1, 1, 2, 2, 2, 3, 5, 10, 1000, 2**32, 2**63, 2**64 - 1]
 
 
 def gen_good_str(rng, pool):
@@ -215,7 +215,8 @@ def gen_history(rng, stats, with_cut=True, max_ops=None):
     ops = ["open"]
     pool, live = [], set()
     n = max_ops or rng.range(3, 16)
-    stats["ratio_%s" % (ratio if ratio < 2**32 else "2^32")] = stats.get("ratio_%s" % (ratio if ratio < 2**32 else "2^32"), 0) + 1
+    rname = "ratio_%s" % (ratio if ratio < 2**32 else {2**32: "2^32", 2**63: "2^63", 2**64 - 1: "2^64-1"}[ratio])
+    stats[rname] = stats.get(rname, 0) + 1
     for _ in range(n):
         k = rng.below(100)
         if k < 60:
@@ -1069,7 +1070,7 @@ def source_literals_ok():
     """the literals the model retypes from mani/src/lib.rs (no numeric consts exist there)"""
     src = open(os.path.join(vlib.REPO, "mani", "src", "lib.rs")).read()
     want = ['const TX_SEPARATOR: &str = "--------";', 'join("MANIFEST")', 'join("MANIFEST.tmp")', 'format!("MANIFEST.{idx}")',
-            "line.len() > 9", "&line[..8], 16", "line.as_bytes()[8..]", "&line[9..]", '{cksum:08x}{line}\\n', "log_rollover_ratio: 2,"]
+            "log_rollover_ratio.saturating_mul(in_memory_bytes)", "line.len() > 9", "&line[..8], 16", "line.as_bytes()[8..]", "&line[9..]", '{cksum:08x}{line}\\n', "log_rollover_ratio: 2,"]
     return [w for w in want if w not in src]
 
 
@@ -1273,7 +1274,7 @@ def run(chk):
         samples.append({"crash_history": crash_cases[-1][0][:400]})
     chk.coverage.update({
         "evaluations": evaluations, "distinct_nontrivial": len(distinct),
-        "rule": "one SplitMix64 seed; (1) histories of open/apply/rollover/close/cut/verify/dump with ratios {0,1,2,3,5,10,1000,2^32}, strings from a boundary pool (1..300 bytes, CR inside, '+'/'-' first, the separator itself, control bytes) plus strings the reader cannot take back (empty, non-ASCII of 2/3/4 bytes, trailing CR, newline, keys + - \\n non-ASCII), non-trivial = at least 2 applies; (2) files: valid serialisations, truncations (all lengths for small files / thorough tier, otherwise line boundaries +-2 and random), 12 kinds of malformed mutants incl. invalid UTF-8, '+' and upper-case checksums, CRLF, well-checksummed unwritable lines; non-trivial = more than 16 bytes; (3) crash: histories under strace, images = prefix of recorded calls x cut of MANIFEST's unsynced tail; distinct = distinct case strings / (history, op, calls, cut)",
+        "rule": "one SplitMix64 seed; (1) histories of open/apply/rollover/close/cut/verify/dump with ratios {0,1,2,3,5,10,1000,2^32,2^63,2^64-1}, strings from a boundary pool (1..300 bytes, CR inside, '+'/'-' first, the separator itself, control bytes) plus strings the reader cannot take back (empty, non-ASCII of 2/3/4 bytes, trailing CR, newline, keys + - \\n non-ASCII), non-trivial = at least 2 applies; (2) files: valid serialisations, truncations (all lengths for small files / thorough tier, otherwise line boundaries +-2 and random), 12 kinds of malformed mutants incl. invalid UTF-8, '+' and upper-case checksums, CRLF, well-checksummed unwritable lines; non-trivial = more than 16 bytes; (3) crash: histories under strace, images = prefix of recorded calls x cut of MANIFEST's unsynced tail; distinct = distinct case strings / (history, op, calls, cut)",
         "samples": samples,
         "input_distribution": {"histories": stats, "format": fstats, "crash": cstats, "lock": lstats},
         "corpus_cases": len(corpus),
@@ -1292,7 +1293,8 @@ def run(chk):
     chk.assumptions = [
         "file-system semantics as in Mani/Fs.v (see trusted_base); I/O faults (EIO, ENOSPC) are not modelled",
         "one writer at a time is the theorem C13_lock_exclusive over Mani/Lock.v; its kernel side is the POSIX rule 'closing any descriptor of a file releases the process\'s record locks on it' and 'a record lock has one owning process'; the lock file itself is not deleted or replaced under a live handle",
-        "no foreign files named MANIFEST.<x> in the directory; u64 overflow of log_rollover_ratio * size not modelled",
+        "no foreign files named MANIFEST.<x> in the directory",
+        "strings that are empty, non-ASCII, end in CR or contain a newline, and info keys + - newline non-ASCII are not COVERED by the theorems but REJECTED by Edit::add/rm/info (theorem C13_edit_api_exact: accepted <-> wf_str / wf_key); the generators submit such strings on every run and the check compares the rejection and the unchanged state with the model and the oracle",
     ]
 
     with open(os.path.join(chk.work, "disagreements.json"), "w") as fh:
